@@ -351,6 +351,17 @@ theorem dump_structure :
     "walker.Walk" ∈ Restic.Gen.sendNodes_calls ∧ "sendNodes" ∈ Restic.Gen.sendTrees_calls ∧
     "d.cache.GetOrCompute" ∈ Restic.Gen.writeNode_calls := by decide
 
+/-- T1: `writeNode` makes exactly two channels kinds — the channel of futures, before the writer
+    goroutine is started, and **one fresh channel per blob** inside the loop, i.e. after the writer's
+    `wg.Go` and before the loader's `d.repo.LoadBlob`. This is what the `Sched` model assumes when it
+    gives every loader its own slot (`finish i` can never deliver into the slot of another blob). -/
+theorem fresh_channel_per_blob :
+    (Restic.Gen.writeNode_calls.filter (· == "make")).length = 2 ∧
+    ((Restic.Gen.writeNode_calls.drop (Restic.Gen.writeNode_calls.idxOf "wg.Go" + 1)).takeWhile
+        (· != "d.repo.LoadBlob")).contains "make" = true ∧
+    ((Restic.Gen.writeNode_calls.take (Restic.Gen.writeNode_calls.idxOf "wg.Go")).filter (· == "make")).length = 1 := by
+  decide
+
 /-! ### Non-vacuity, and the defect found (F11) -/
 
 def exBlobs : Blobs := fun i => match i with | 1 => some [104, 105] | 2 => some [33] | _ => none
